@@ -68,6 +68,7 @@ func (r *fsmResult) name(k int64) string {
 // stateConsts: constants (package- or function-level) whose names share the given prefix set / type uint8|uint32 iota block.
 func stateConstsOf(c *Ctx, fnKey string, prefixes ...string) map[int64]string {
 	out := map[int64]string{}
+	var all []*types.Const
 	add := func(obj types.Object) {
 		k, ok := obj.(*types.Const)
 		if !ok {
@@ -75,13 +76,32 @@ func stateConstsOf(c *Ctx, fnKey string, prefixes ...string) map[int64]string {
 		}
 		for _, p := range prefixes {
 			if strings.HasPrefix(k.Name(), p) {
-				v, _ := constant.Int64Val(constant.ToInt(k.Val()))
-				if _, dup := out[v]; !dup {
-					out[v] = k.Name()
-				}
+				all = append(all, k)
 			}
 		}
 	}
+	defer func() {
+		// the states are the constants of one declared type: that of the initial state (<prefix>Init); other
+		// constants that merely share the prefix (named limits, masks) are not states
+		var ref types.Type
+		for _, k := range all {
+			for _, p := range prefixes {
+				if k.Name() == p+"Init" {
+					ref = k.Type()
+				}
+			}
+		}
+		sort.Slice(all, func(i, j int) bool { return all[i].Pos() < all[j].Pos() })
+		for _, k := range all {
+			if ref != nil && !types.Identical(k.Type(), ref) {
+				continue
+			}
+			v, _ := constant.Int64Val(constant.ToInt(k.Val()))
+			if _, dup := out[v]; !dup {
+				out[v] = k.Name()
+			}
+		}
+	}()
 	sc := c.Types.Scope()
 	for _, n := range sc.Names() {
 		add(sc.Lookup(n))
@@ -601,15 +621,30 @@ func (r *fsmRunner) branch(b *ssa.BasicBlock, iff *ssa.If, p fsmPath, from int64
 				}
 				return
 			}
-			// verdict tests
+			// verdict tests (a verdict variable merged at a join is the callee verdict of the edge taken)
 			var ev ssa.Value
 			var k int64
 			var okk bool
-			if _, has := p.verd[bo.X]; has {
-				ev = bo.X
+			viaPhi := func(v ssa.Value) ssa.Value {
+				for n := 0; n < 6; n++ {
+					ph, ok := v.(*ssa.Phi)
+					if !ok {
+						break
+					}
+					nv, has := p.phis[ph]
+					if !has || nv == v {
+						break
+					}
+					v = nv
+				}
+				return v
+			}
+			bx, by := viaPhi(bo.X), viaPhi(bo.Y)
+			if _, has := p.verd[bx]; has {
+				ev = bx
 				k, okk = constIntOf(bo.Y)
-			} else if _, has := p.verd[bo.Y]; has {
-				ev = bo.Y
+			} else if _, has := p.verd[by]; has {
+				ev = by
 				k, okk = constIntOf(bo.X)
 			}
 			if ev != nil && okk {
